@@ -277,6 +277,9 @@ func (fr *Frame) applyContract(ins *ssa.Call, fc *FuncContract, key string, call
 		}
 	}
 	for i, en := range fc.Ensures {
+		if en.Local {
+			continue
+		}
 		sc := mk(st, pre)
 		if len(resVals) == 1 {
 			sc.vars["result"] = resVals[0]
